@@ -37,12 +37,13 @@ def _open_readonly(sb, kind):
     "C19.histories",
     covers=("rejected", "silently-skipped", "reads-still-work", "store-with-crash-debris"),
     split={"kind": [0, 1, 2, 3], "pre": [0, 1, 2, 3]},
+    tier_split={"thorough": {"kind": [0, 1, 2, 3], "pre": [0, 1, 2, 3], "o0": list(range(len(OPS)))}},
     bounds="a filesystem store pre-populated by a writable back-end (3 initial contents, plus one with crash debris: a memento link truncated to nothing and a dangling one) and reopened read-only (flag from argument or from "
            "configuration, shared / separate metadata path, with / without memory cache); all sequences of L=2 operations out of %d (the C05 "
            "alphabet); after every operation: no file-system mutation event under the store roots (audit hook), tree digest unchanged, all "
            "read-only queries still answer like the dictionary frozen at reopening" % len(OPS),
     variables="choice: o0, o1",
-    budget_s={"quick": 170, "thorough": 900},
+    budget_s={"quick": 400, "thorough": 900},
     tier_args={"quick": {"L": 2}, "thorough": {"L": 3}},
     choice_vars=3,
 )
